@@ -58,25 +58,33 @@ theorem keeps_cacheDescribeConfig (w : World) (s : BState) (o : Obj) :
     KeepsBundle s (cacheDescribeConfig w s o).st := by
   unfold cacheDescribeConfig; split <;> exact ⟨rfl, rfl, rfl, rfl⟩
 
+theorem keeps_cacheDescribe (w : World) (s : BState) (o : Obj) (c : Bool) :
+    KeepsBundle s (cacheDescribe w s o c).st := by
+  unfold cacheDescribe
+  split
+  · exact KeepsBundle.refl s
+  · split
+    · exact KeepsBundle.refl s
+    · split
+      · exact ⟨rfl, rfl, rfl, rfl⟩
+      · split
+        · exact ⟨rfl, rfl, rfl, rfl⟩
+        · exact KeepsBundle.refl s
+
+theorem keeps_cacheConfig (w : World) (s : BState) (o : Obj) : KeepsBundle s (cacheConfig w s o).st := by
+  unfold cacheConfig
+  split
+  · apply keeps_andThen
+    · exact keeps_cacheDescribeConfig w s o
+    · intro s''; exact keeps_cacheReadConfig w s'' o
+  · exact KeepsBundle.refl s
+
 theorem keeps_ensureCached (w : World) (s : BState) (o : Obj) (c : Bool) :
     KeepsBundle s (ensureCached w s o c).st := by
   unfold ensureCached
   apply keeps_andThen
-  · split
-    · exact KeepsBundle.refl s
-    · split
-      · exact KeepsBundle.refl s
-      · split
-        · exact ⟨rfl, rfl, rfl, rfl⟩
-        · split
-          · exact ⟨rfl, rfl, rfl, rfl⟩
-          · exact KeepsBundle.refl s
-  · intro s'
-    split
-    · apply keeps_andThen
-      · exact keeps_cacheDescribeConfig w s' o
-      · intro s''; exact keeps_cacheReadConfig w s'' o
-    · exact KeepsBundle.refl s'
+  · exact keeps_cacheDescribe w s o c
+  · intro s'; exact keeps_cacheConfig w s' o
 
 theorem keeps_ensureAll (w : World) (s : BState) (objs : List Obj) (c : Bool) :
     KeepsBundle s (ensureAll w s objs c).st := by
